@@ -63,6 +63,20 @@ def gen(tier: str, seed: int) -> list[Case]:
     for name, pkg in scenarios().items():
         for nc in (False, True):
             cases.append(Case(cid=f"c04-scn-{name}-{int(nc)}", files=pg.render(pkg), opts=["-nc"] if nc else [], meta={"pkg": pkg}, reach=REACH))
+    # packages without a model (every declaration form of C01's library, its package scenarios): no class, function or
+    # attribute whose Python name starts with an underscore (dunder names aside) may be DECLARED in any stub - a name that
+    # a package __init__ re-exports under a public alias is declared under that alias
+    from ..scenarios import PACKAGE_SCENARIOS
+    from . import c01
+
+    for i in range(3 if tier == "quick" else 60):
+        ks = c01.kitchen_sink(rng_for(seed, PID, "kitchen-sink", i), gated_features(), 150 + i)
+        cases.append(Case(cid=f"c04-kitchen-{i}", files=ks, opts=[[], ["-nc"], ["--docstyle", "numpydoc"], ["-nc", "--docstyle", "rest"]][i % 4], meta={}, reach=REACH))
+    for k, (feat, sfiles, optsets) in enumerate(PACKAGE_SCENARIOS):
+        if feat in gated_features() or feat == "init:forms":  # (init:forms re-exports a private function under a public alias AND a private alias)
+            continue
+        files = {"src/" + fk: ({"hex": fv.hex()} if isinstance(fv, bytes) else fv) for fk, fv in sfiles.items()}
+        cases.append(Case(cid=f"c04-scenario-{feat}", files=files, opts=list(optsets[(k + seed) % len(optsets)]), meta={}, reach=REACH))
     return cases
 
 
@@ -85,10 +99,20 @@ def scenarios() -> dict:
 
 def make_judge(chk: Check):
     def judge(case: Case, rec: dict, probe=None) -> list[Viol]:
-        pkg = case.meta["pkg"]
+        pkg = case.meta.get("pkg")
         ss = StubSet(rec["tree"])
         for e in ss.errors.values():
             chk.discarded[f"unparsable-stub:{e.rule}"] += 1
+        if pkg is None:
+            viols = []
+            for rel, _m, d in ss.all_decls():
+                inside_enum = d.kind in ("enum", "variant") or (d.owner is not None and d.owner.kind == "enum")
+                if d.kind in ("class", "fun", "attr") and not inside_enum:
+                    nm = d.pyname
+                    if nm.startswith("_") and not (nm.startswith("__") and nm.endswith("__")):
+                        viols.append(Viol("private-name-declared", f"model-free:{d.kind}", {"file": rel, "declaration": d.path()}))
+                    chk.case_ok(f"model-free:{d.kind}", ident=(case.cid, rel, d.path()))
+            return viols
         pubs = pg.publicity(pkg)
         viols = st.judge_privacy(chk, pkg, ss, pubs, ss.api(), text_search=not case.meta.get("declarations_only"))
         npriv = sum(1 for g in pg.walk(pkg) if not pubs[g.id].public)
